@@ -477,11 +477,8 @@ func (ip *Interp) makeSlice(fr *frame, instr *ssa.MakeSlice) Value {
 			c := ip.concInt(capT, "make cap")
 			return ip.newSlice(et, n, c)
 		}
-		small := st.Cmp(OpSLe, lenT, st.Const(64, uint64(lim)))
-		if ip.branch(small) {
-			n := ip.concInt(lenT, "make len")
-			return ip.newSlice(et, n, n)
-		}
+		// symbolic length: lim tracked cells; the length is made concrete
+		// lazily, only where an operation needs it (copy counts, conversions)
 		s := ip.newSlice(et, lim, lim)
 		s.SymLen = lenT
 		s.SymCap = lenT
